@@ -39,6 +39,12 @@ class InlinePool:
     def map(self, f, xs):
         return [f(x) for x in list(xs)]
 
+    def imap(self, f, xs):
+        return iter([f(x) for x in list(xs)])
+
+    def uimap(self, f, xs):
+        return iter([f(x) for x in list(xs)])
+
     def close(self):
         pass
 
